@@ -503,6 +503,14 @@ theorem Keeps.cons_inv {c : Code} {cs ks : List Code} (hc : c.isComment = false)
   | drop _ => simp [Code.isComment] at hc
   | keepC _ => simp [Code.isComment] at hc
 
+theorem Keeps.length_le : ∀ {cs ks : List Code}, Keeps cs ks → ks.length ≤ cs.length := by
+  intro cs ks h
+  induction h with
+  | nil => exact Nat.le_refl _
+  | keep _ _ ih => simp; exact ih
+  | drop _ ih => simp; omega
+  | keepC _ ih => simp; exact ih
+
 /-- the labels defined -/
 def labs (cs : List Code) : List String := cs.filterMap fun c => match c with | .LAB l => some l | _ => none
 
